@@ -157,7 +157,7 @@ func (db *DB) basicExport(ctx context.Context, config *client.BackupConfig) (err
 				err = NewErrRemoveFile(removeErr, err, tempFile)
 			}
 		} else {
-			_ = os.Rename(tempFile, config.Filepath)
+			err = os.Rename(tempFile, config.Filepath)
 		}
 	}()
 
